@@ -196,6 +196,7 @@ def main():
     ap.add_argument('--replay')
     args = ap.parse_args()
     pid = args.pid
+    os.environ['VERIF_PID'] = pid
     tier = 'thorough' if args.tier == 'thorough' else 'quick'
     seed = lib.seed()
     t0 = time.time()
